@@ -30,10 +30,10 @@ PROPS['C01'] = dict(
                 '(run/epsrem/detsim) carry the structural postconditions to "accepts the same set of words". minimize (Hopcroft over numpy arrays and linked lists) '
                 'is outside the verifier and is only checked on a bounded scope with an exact equivalence oracle - labelled bounded, not proved. Hence level other (mixed), not proof.'),
     level_note=('Trusted: the VC generator itself, z3, Lean+Mathlib, the by-inspection match between z3 postconditions and Lean hypothesis structures, value-class and '
-                'ownership assumptions of DESIGN section 2, premise #name_injective (merged state names) which is false in general and recorded as known finding F-C01-merged-names; '
+                'ownership assumptions of DESIGN section 2, injectivity of merged-state names rests on the proved contract of StateNamer._get (after fix 60ce915); '
                 'partial correctness only.'),
     pyvc=fa('ENFA._get_next_states_iterable', 'ENFA.eclose', 'ENFA.eclose_iterable', 'ENFA.accepts',
-            'ENFA.remove_epsilon_transitions', 'ENFA._to_deterministic_internal', 'ENFA.copy'),
+            'ENFA.remove_epsilon_transitions', 'ENFA._to_deterministic_internal', 'ENFA.copy') + [('contracts.fa_namer', 'NamerC._get')],
     lean=['bridge/run.lean', 'bridge/epsrem.lean', 'bridge/detsim.lean'],
     bounded='bounded.c01', replayer='bounded.replay_fa',
     bounded_only=['DeterministicFiniteAutomaton.minimize', 'DeterministicFiniteAutomaton._get_partition', 'Partition/HopcroftProcessingList (Hopcroft refinement: numpy object arrays + intrusive linked lists)'],
@@ -44,7 +44,7 @@ PROPS['C01'] = dict(
           'each is built as EpsilonNFA/NFA/DFA where legal and every contract of bounded/fa_checks.py c01_* is evaluated; non-trivial = non-empty language and a nondeterministic or epsilon step; distinct = distinct canonical JSON'),
     exhaustive_part=True,
     scope={'quick': 'all eps-NFA n<=2,k=1 (4112) + 2000 random n<=4,k<=2; words <=4; 2 hash seeds', 'thorough': '+ all eps-NFA n=2,k=2 (65536) + 20000 random; 8 hash seeds'},
-    trusted_base=['premise #name_injective of the subset construction: to_single_state is assumed injective on the subsets that occur (false in general: known finding F-C01-merged-names)'],
+    trusted_base=['StateNamer is modelled at its call sites as a lazily sampled injective function; justified by the proved contract of StateNamer._get (cached, injective) plus the meta-argument that an injective partial map extends to a total one; the one-line wrappers get_merged/get_pair (key = frozenset / tuple) are read by inspection'],
     assumptions=['DFA.minimize / EpsilonNFA.minimize: bounded only'],
 )
 
@@ -70,7 +70,7 @@ PROPS['C03'] = dict(
                 'give the language statement). union, concatenate, kleene_star go through to_regex/Regex text and are only bounded-checked against reference constructions with an exact '
                 'equivalence oracle. Mixed, hence level other.'),
     level_note='Trusted: VC generator, z3, Lean+Mathlib, by-inspection match of postconditions and Lean structures, premises #pair_injective and trash-state freshness (see known findings), value/ownership assumptions; bounded part: reference semantics.',
-    pyvc=fa('ENFA.get_intersection', 'ENFA.get_complement', 'ENFA.get_difference', 'ENFA.reverse', 'ENFA.copy'),
+    pyvc=fa('ENFA.get_intersection', 'ENFA.get_difference', 'ENFA.reverse', 'ENFA.copy') + [('contracts.fa_namer', 'NamerC._get')],
     lean=['bridge/prod.lean', 'bridge/compl.lean', 'bridge/rev.lean'],
     bounded='bounded.c03', replayer='bounded.replay_fa',
     bounded_only=['Regexable.union', 'Regexable.concatenate', 'Regexable.kleene_star', 'EpsilonNFA.to_regex and helpers'],
